@@ -607,6 +607,11 @@ class ReplaceConstant(ast.NodeTransformer):
             #raise TranspilationException("Boolean constants not supported! Use integers.")
             return VerilogConstant(int(node.value))
         
+        if isinstance(node.value, (float, complex)):
+            # the simulator raises TypeError on `float & mask` in Wire.put/prepare; a Verilog
+            # real would be silently rounded on assignment
+            raise TranspilationException('Constant should be integer: {}'.format(node.value))
+        
         return VerilogConstant(node.value)
     
     def visit_Num(self, node):
